@@ -166,7 +166,7 @@ func (w *c40Worker) ensureState(first bool) {
 			body, _ := json.Marshal(map[string]any{"name": name, "provider": "sqlite", "database": w.g.dbPath + "." + name, "restricted": name == "c40priv"})
 			r = f.Do(srvfix.Request{Method: "POST", Path: "/dsns/", Header: admin, Body: body})
 
-			if r.Status != 200 && first {
+			if r.Status >= 300 && first {
 				w.notes = append(w.notes, fmt.Sprintf("create dsn %s: %d %s", name, r.Status, vh.Trunc(string(r.Body), 200)))
 			}
 		}
@@ -180,7 +180,7 @@ func (w *c40Worker) ensureState(first bool) {
 			cols := `[{"name":"id","type":"int"},{"name":"name","type":"string"}]`
 			r = f.Do(srvfix.Request{Method: "PUT", Path: "/dsns/" + name + "/tables/" + tbl, Header: admin, Body: []byte(cols)})
 
-			if r.Status != 200 && first {
+			if r.Status >= 300 && first {
 				w.notes = append(w.notes, fmt.Sprintf("create table %s.%s: %d %s", name, tbl, r.Status, vh.Trunc(string(r.Body), 200)))
 			}
 
